@@ -180,6 +180,7 @@ const ruleDecide = "exhaustive: one case = one privilege table (<=3 grants from 
 	"non-trivial = the table nests two grants (one granted path is a proper ancestor of another, with a different privilege list), so some request is decided by a nearer grant against a farther one"
 
 var assumptionsDecide = []string{
+	"a row of the table with an empty privilege list is a grant of nothing: it is the closest row for everything below it and denies, exactly as a row [none] does (auth.go: the walk stops at the first path present in the table; services/auth writes such rows as [none])",
 	"an action whose required privilege is NoPrivileges is authorised without any grant (auth.go AuthorizeAction; httpd maps HEAD/OPTIONS to it)",
 	"granted paths of a table are distinct after normalisation (two keys cleaning to the same path would make NewUser depend on map order); privilege lists never mix 'all' or 'none' with other privileges (no caller produces that: services/auth convertPermissions/convertPMPermissions/GrantSubscriptionAccess)",
 	"'..' at the root stays at the root (absolute paths)",
@@ -261,6 +262,8 @@ func decideEval(c DecideCase, cc *kit.Case) (failReq string, decisions int) {
 			}
 		}
 		switch {
+		case len(g.Privs) == 0:
+			cc.Label("grant:empty-list")
 		case len(g.Privs) == 1 && g.Privs[0] == "none":
 			cc.Label("grant:none")
 		case len(g.Privs) == 1 && g.Privs[0] == "all":
@@ -344,8 +347,8 @@ type universe struct {
 }
 
 var (
-	kinds7 = [][]string{{"none"}, {"read"}, {"write"}, {"delete"}, {"read", "write"}, {"read", "write", "delete"}, {"all"}}
-	kinds9 = [][]string{{"none"}, {"read"}, {"write"}, {"delete"}, {"read", "write"}, {"read", "delete"}, {"write", "delete"}, {"read", "write", "delete"}, {"all"}}
+	kinds7 = [][]string{{}, {"none"}, {"read"}, {"write"}, {"delete"}, {"read", "write"}, {"read", "write", "delete"}, {"all"}}
+	kinds9 = [][]string{{}, {"none"}, {"read"}, {"write"}, {"delete"}, {"read", "write"}, {"read", "delete"}, {"write", "delete"}, {"read", "write", "delete"}, {"all"}}
 )
 
 func universes() []universe {
